@@ -189,8 +189,10 @@ def chain_case(L, n, cap, lazy, savers=None, fault=None, cfault=None, loader=Fal
     nodes = [{"name": "s0", "kind": "loader" if loader else "source"}]
     for i in range(1, L):
         nodes.append({"name": "s%d" % i, "kind": "plugin", "deps": ["s%d" % (i - 1)]})
+    sv = dict(savers or {})
+    sv = {k: sv[k] for k in sorted(sv, key=lambda d: int(d[1:]))}
     return {"shape": "chain%d" % L, "N": n, "cap": cap, "lazy": bool(lazy), "relay": False, "nodes": nodes,
-            "savers": dict(savers or {}), "rechunk": list(rechunk), "target": "s%d" % (L - 1),
+            "savers": sv, "rechunk": list(rechunk), "target": "s%d" % (L - 1),
             "fault": fault, "cfault": cfault}
 
 
@@ -310,6 +312,53 @@ def net_of(case):
         finally:
             if hasattr(sysm, "close"):
                 sysm.close()
+
+
+def family_line(case, net):
+    """driver line computing the canonical network of Model/C06Nets.v this case should be an instance of (the
+    families the general statements of Props/C06.v speak about), or None"""
+    if case.get("graph") or case.get("rechunk") or case.get("max_workers"):
+        return None
+    kinds = [nd["kind"] for nd in case["nodes"]]
+    fl = net_fault_tokens(net, case)
+    fx = 1 if tuple(case.get("fixes", (1, 1, 1))) == (1, 1, 1) and os.environ.get("C06_PINNED") != "1" else 0
+    if case["shape"].startswith("chain") and kinds[0] == "source":
+        L = len(case["nodes"])
+        nsav = [case["savers"].get("s%d" % i, 0) for i in range(L)]
+        toks = [fx, case["N"], int(case["lazy"]), int(bool(case.get("relay"))), L] + [case["cap"]] * L + nsav + fl
+        return "family chain " + " ".join(map(str, toks))
+    if case["shape"] in ("fan10", "fan10s") and kinds[0] == "source":
+        sx, sy = case["savers"].get("x", 0), case["savers"].get("y", 0)
+        if list(case["savers"]) not in ([], ["x"], ["y"], ["x", "y"]):
+            return None
+        toks = [fx, case["N"], case["cap"], int(case["lazy"]), int(case["shape"] == "fan10s"), sx, sy,
+                int(bool(case.get("relay")))] + fl
+        return "family fan " + " ".join(map(str, toks))
+    return None
+
+
+def net_fault_tokens(net, case):
+    """the six fault / consumer-fault tokens of a derived network line"""
+    # layout: nmb {cap lazy nsubs drives}* nth {thread}* ft fp fc ck cc ce f1 f2 f3 ...
+    i = 0
+    nmb = net[i]; i += 1
+    for _ in range(nmb):
+        ns = net[i + 2]
+        i += 3 + ns
+    nth = net[i]; i += 1
+    for _ in range(nth):
+        k = net[i]
+        if k == 0:
+            i += 4 + 2 * net[i + 3]
+        elif k == 1:
+            i += 4
+        elif k == 2:
+            i += 3
+        elif k == 3:
+            i += 4 + 2 * net[i + 3]
+        else:
+            i += 4
+    return list(net[i:i + 6])
 
 
 def model_line(net, schedule):
@@ -451,6 +500,14 @@ def exec_task(task):
            "truncated": truncated, "outcomes": {}, "disagreements": [], "failures": [], "nontrivial": 0,
            "codes": {}, "names": names, "net": net}
     bad = compare_with_model(net, results) if task.get("compare", True) else []
+    fam = family_line(case, net) if task.get("compare", True) else None
+    out["family"] = None
+    if fam is not None:
+        d1, d2 = lib.run_model("C06", ["netdigest " + " ".join(map(str, net)), fam])
+        out["family"] = (d1 == d2)
+        if d1 != d2:
+            bad = [(0, "the network wired by ThreadedMailboxProcessor is not the %s network of Model/C06Nets.v the "
+                       "theorems speak about (digests %s / %s)" % (fam.split()[1], d1, d2))] + bad
     for idx, what in bad[:2]:
         r = results[idx]
         out["disagreements"].append({"schedule": r.schedule, "what": what, "outcome": r.outcome})
